@@ -201,6 +201,13 @@ func (e *Env) evalIdent(name string) *Value {
 		return mathVal(c)
 	}
 	if gv, ok := g.W.C.Ghosts[name]; ok {
+		if gv.T.Kind == "map" {
+			ks, vs, vt, err := e.ghostMapSorts(gv)
+			if err != nil {
+				return e.fail("%v", err)
+			}
+			return &Value{T: vt, L: []string{g.compTerm(e.st, "G|"+gv.Name+"|", arrSort(ks, vs))}, MapVal: vs}
+		}
 		if gv.T.Kind == "set" {
 			et, err := g.W.lookupType(gv.T.Elem, gv.PkgPath)
 			if err != nil {
@@ -230,6 +237,24 @@ func (e *Env) evalIdent(name string) *Value {
 		}
 	}
 	return e.fail("unknown identifier %s (package %s)", name, e.pkgPath)
+}
+
+// ghostMapSorts: key sort, value sort and value type of a ghost map (both single-leaf).
+func (e *Env) ghostMapSorts(gv *GhostVar) (string, string, types.Type, error) {
+	g := e.g
+	kt, err := g.W.lookupType(gv.T.Key, gv.PkgPath)
+	if err != nil {
+		return "", "", nil, err
+	}
+	vt, err := g.W.lookupType(gv.T.Elem, gv.PkgPath)
+	if err != nil {
+		return "", "", nil, err
+	}
+	ks, vs := g.W.shapes.shape(kt), g.W.shapes.shape(vt)
+	if len(ks) != 1 || len(vs) != 1 {
+		return "", "", nil, fmt.Errorf("ghost map %s: composite key or value type", gv.Name)
+	}
+	return ks[0].Sort, vs[0].Sort, vt, nil
 }
 
 func (e *Env) ghostType(gv *GhostVar) (types.Type, error) {
@@ -455,6 +480,15 @@ func (e *Env) evalIndex(n *Index) *Value {
 	xv := e.eval(n.X)
 	if xv.SetElem != "" {
 		return boolVal(smtSel(xv.L[0], e.eval(n.I).term()))
+	}
+	if xv.MapVal != "" {
+		r := &Value{T: xv.T, L: []string{smtSel(xv.L[0], e.eval(n.I).term())}}
+		if isIntType(xv.T) && xv.MapVal == sInt {
+			if b, ok := xv.T.(*types.Basic); ok && b.Kind() == types.UntypedInt {
+				r.Math = true
+			}
+		}
+		return r
 	}
 	if xv.T == nil {
 		return e.fail("index of untyped value")
@@ -813,6 +847,17 @@ func (e *Env) evalCall(n *Call) *Value {
 			return e.fail("locked(): unsupported address")
 		}
 		return boolVal(smtSel(g.compTerm(e.st, heldKey, arrSort(sInt, sBool)), id))
+	case "addr":
+		// addr(x.f): the identity of the address &x.f (as stored by the code when it keeps such a pointer)
+		lv := e.evalAddr(n.Args[0])
+		if lv == nil {
+			return e.fail("addr(): argument does not denote memory")
+		}
+		mv, ok := g.materialize(&Value{T: types.NewPointer(lv.T), L: []string{"?"}, LV: lv})
+		if !ok {
+			return e.fail("addr(): unsupported address")
+		}
+		return mv
 	case "off":
 		v := e.eval(n.Args[0])
 		if len(v.L) != 4 {
